@@ -48,6 +48,9 @@ class CustomS:
     def __init__(self, children):
         self.children = list(children)
 
+    def __getitem__(self, i):          # exposes its children under the flat indices used as entries
+        return self.children[i]
+
     def __repr__(self):
         return f'CustomS({self.children!r})'
 
